@@ -1080,3 +1080,139 @@ Example C20_history_guard_satisfiable :
   fst r hx_A = Some [7%N; 8%N; 9%N] /\ fst r (bak hx_A) = Some [1%N].
 Proof. exact ex_history_guard_satisfiable. Qed.
 Print Assumptions C20_history_guard_satisfiable.
+
+
+(** ========================================================================
+    Wave 2.  (4) the option plumbing of `deep diff` (Cli/OptModel.v, OptProofs.v):
+    which options keep "diff -> patch reproduces the file"; (5) two concurrent
+    `deep patch` commands on one file (Cli/ConcModel.v, ConcProofs.v; extension). *)
+From DD Require Import Cli.OptModel Cli.OptProofs.
+
+(** `deep diff --create-patch <options>` cannot produce a patch exactly under
+    --group-by, --ignore-order without --report-repetition, --cache-purge-level 2 *)
+Theorem C20_diff_options_fail_iff :
+  forall hatom udiff ops conv (o : opts) (a b : Value.value),
+    diff_opts hatom udiff ops conv o a b = None <->
+    (o_group_by o = true \/ (o_ignore_order o = true /\ o_report_repetition o = false) \/ o_cache_purge_level o = 2).
+Proof. exact diff_opts_fails_iff. Qed.
+Print Assumptions C20_diff_options_fail_iff.
+
+(** under EVERY exact option combination (nothing ignored: any threshold, verbosity,
+    cache / cutoff settings, --report-repetition, --get-deep-distance, --max-passes,
+    --progress-logger, --include-private-variables, --debug) the delta is the one of
+    the diff model under [cfg_of o] ... *)
+Theorem C20_exact_options_delta :
+  forall hatom udiff ops conv (o : opts) (a b : Value.value),
+    exact o = true ->
+    mk_delta_opts hatom udiff ops conv o a b =
+    DeltaChain.delta_of hatom udiff ops (cfg_of o) conv false false a b.
+Proof. exact mk_delta_opts_exact. Qed.
+Print Assumptions C20_exact_options_delta.
+
+(** ... and the end-to-end clause holds (same premises as
+    C20_patch_reproduces_json_docs; the '__' guard disappears with
+    --include-private-variables) *)
+Theorem C20_patch_reproduces_json_docs_options :
+  forall (X : Type) (parse : FsModel.content X -> option Value.value)
+         (dump : Value.value -> option (FsModel.content X))
+         (pickle : DeltaModel.delta -> FsModel.content X)
+         (unpickle : FsModel.content X -> option DeltaModel.delta)
+         (hatom : Value.atom -> PyStr.pystr)
+         (udiff : PyStr.pystr -> PyStr.pystr -> PyStr.pystr)
+         (ops : Value.path -> list Value.value -> list Value.value -> list Tree.opcode)
+         (conv : Value.ty -> Value.value -> option Value.value)
+         (ro : list (Value.path * Value.value) -> list (Value.path * Value.value))
+         (ao : list (Value.path * option Value.value) -> list (Value.path * option Value.value)),
+    (forall a b : Value.atom, hatom a = hatom b -> a = b) ->
+    (forall (ty0 : Value.ty) (v v' : Value.value), conv ty0 v = Some v' -> Value.type_of v' = ty0) ->
+    JsonDocs.conv_json_ok conv ->
+    (forall (p : Value.path) (xs ys : list Value.value),
+        List.forallb DiffModel.is_atom xs = true ->
+        List.forallb DiffModel.is_atom ys = true ->
+        DeltaGuard.valid_ops xs ys (ops p xs ys)) ->
+    DeltaRun.ro_ok ro ->
+    DeltaRun.ao_ok ao ->
+    (forall (d : Value.value) (cc : FsModel.content X), dump d = Some cc -> parse cc = Some d) ->
+    (forall d : DeltaModel.delta, unpickle (pickle d) = Some d) ->
+    forall (o : opts) (pos : FsModel.dumps_pos) (keep : bool) (A B P : FsModel.path) (f : FsModel.fs X)
+           (ca : FsModel.content X) (a b : Value.value) (pd : FsModel.content X),
+      exact o = true ->
+      f A = Some ca ->
+      parse ca = Some a ->
+      FsModel.load parse f B = Some b ->
+      P <> A ->
+      P <> FsModel.bak A ->
+      JsonDocs.is_json a = true ->
+      JsonDocs.is_json b = true ->
+      Value.wf a = true ->
+      Value.wf b = true ->
+      DeltaGuard.alias_free (DeltaGuard.atoms_of a ++ DeltaGuard.atoms_of b) ->
+      o_include_private o = true \/ DeltaGuard.nopriv a = true /\ DeltaGuard.nopriv b = true ->
+      diff_cmd_opts X parse pickle hatom udiff ops conv o A B f = Some pd ->
+      exists b' : Value.value,
+        DeltaModel.apply conv ro ao (mk_delta_opts hatom udiff ops conv o a b) a = (b', 0) /\
+        DeltaGuard.veqb b' b = true /\
+        (forall cr : FsModel.content X,
+            dump b' = Some cr ->
+            exists f' : FsModel.fs X,
+              FsModel.patch_cmd parse dump unpickle (JsonDocs.apply_delta_json conv ro ao) pos keep A P
+                                FsModel.no_fault (FsModel.upd P (Some pd) f) = (f', FsModel.Done) /\
+              FsModel.load parse f' A = Some b' /\
+              f' A = Some cr /\
+              f' (FsModel.bak A) = (if keep then Some ca else None) /\
+              (forall q : FsModel.path, q <> A -> q <> FsModel.bak A -> q <> P -> f' q = f q)).
+Proof.
+  intros X parse dump pickle unpickle hatom udiff ops conv ro ao H1 H2 H3 H4 H5 H6 H7 H8.
+  exact (patch_reproduces_json_opts X parse dump pickle unpickle hatom udiff ops conv ro ao H1 H2 H3 H4 H5 H6 H7 H8).
+Qed.
+Print Assumptions C20_patch_reproduces_json_docs_options.
+
+(** outside [exact] the clause fails: --exclude-paths root['a'] (modelled: DiffModel's
+    [skip]); the other ignoring options are replayed on the real CLI (OPTION_WITNESSES) *)
+Theorem C20_option_exclude_paths_refuted :
+  delta_possible ox_opts = true /\ exact ox_opts = false /\
+  JsonDocs.json_guardsb (cfg_of ox_opts) ox_t1 ox_t2 = true /\
+  DeltaModel.apply DeltaExamples.conv_none (@rev _) (fun l => l)
+    (mk_delta_opts DeltaExamples.hatom_ex (fun _ _ => []) DeltaExamples.no_ops DeltaExamples.conv_none ox_opts ox_t1 ox_t2) ox_t1
+    = (ox_res, 0) /\
+  DeltaGuard.veqb ox_res ox_t2 = false /\
+  DeltaGuard.veqb (fst (DeltaModel.apply DeltaExamples.conv_none (@rev _) (fun l => l)
+               (mk_delta_opts DeltaExamples.hatom_ex (fun _ _ => []) DeltaExamples.no_ops DeltaExamples.conv_none default_opts ox_t1 ox_t2) ox_t1)) ox_t2 = true.
+Proof. exact option_exclude_paths_refuted. Qed.
+Print Assumptions C20_option_exclude_paths_refuted.
+
+Example C20_exact_options_satisfiable :
+  exact default_opts = true /\ exact ox_many = true /\ cfg_of ox_many = DiffModel.mkCfg false 1 1 false.
+Proof. exact exact_satisfiable. Qed.
+Print Assumptions C20_exact_options_satisfiable.
+
+From DD Require Import Cli.ConcModel Cli.ConcProofs.
+
+(** EVERY interleaving of two concurrent `deep patch` commands (the bound is in the
+    statement: two processes, the step programs Load/Backup/Open/Flush[/Remove],
+    every merge of their moves): at the end A holds a complete version built on the
+    original with at least one update, A.bak is absent or complete, and A has BOTH
+    updates exactly when the runs did not overlap *)
+Theorem C20_concurrent_every_interleaving :
+  forall (k1 k2 : bool) (il : list bool), balanced k1 k2 il = true -> good_end k1 k2 il = true.
+Proof. exact conc_every_interleaving. Qed.
+Print Assumptions C20_concurrent_every_interleaving.
+
+(** a lost update is silent (both exit 0), and a command can fail although its update is in the file *)
+Theorem C20_concurrent_silent_lost_update :
+  balanced false false il_lost = true /\
+  (let '(p1, p2, f) := run2 false false il_lost in
+   finished p1 = true /\ finished p2 = true /\
+   content_of (c_A f) f = Some [2%N; 0%N] /\ content_of (c_bak f) f = None) /\
+  silent_loss false false il_lost = true.
+Proof. exact conc_silent_lost_update. Qed.
+Print Assumptions C20_concurrent_silent_lost_update.
+
+Theorem C20_concurrent_false_alarm :
+  balanced false false il_alarm = true /\ serial il_alarm = true /\
+  (let '(p1, p2, f) := run2 false false il_alarm in
+   p_status p1 = Finished /\ p_status p2 = Failed CRemove /\
+   content_of (c_A f) f = Some [2%N; 1%N; 0%N]) /\
+  false_alarm false false il_alarm = true.
+Proof. exact conc_false_alarm. Qed.
+Print Assumptions C20_concurrent_false_alarm.
